@@ -26,28 +26,28 @@ type FnCtx struct {
 	cur    *State
 	entry  *State // state at function entry (for old())
 
-	blockExit  map[*ssa.BasicBlock]*State
-	edgeCond   map[[2]int]string
-	loopHeads  map[*ssa.BasicBlock]*loopInfo
-	loopOrder  []*ssa.BasicBlock
-	defers     []*deferRec
-	locals     map[string]ssa.Value // source name -> latest DebugRef'd value (dominating, approximated)
-	debugRefs  []*ssa.DebugRef
-	exits      []*exitInfo
-	activeLoops []*loopInfo // loops whose body is currently executed (for write checks)
-	curBlock   *ssa.BasicBlock
-	safety     bool
-	safetyTags []string
-	callCount  map[string]int
-	oblCount   map[string]int
-	lastCall   string
-	letVals    map[string]Val
-	paramVars  map[string]Val
-	readFails  [][2]string // (reader, failure flag) pairs of the reads(...) items of the contract call being applied
-	lastSort   *sortInfo
+	blockExit    map[*ssa.BasicBlock]*State
+	edgeCond     map[[2]int]string
+	loopHeads    map[*ssa.BasicBlock]*loopInfo
+	loopOrder    []*ssa.BasicBlock
+	defers       []*deferRec
+	locals       map[string]ssa.Value // source name -> latest DebugRef'd value (dominating, approximated)
+	debugRefs    []*ssa.DebugRef
+	exits        []*exitInfo
+	activeLoops  []*loopInfo // loops whose body is currently executed (for write checks)
+	curBlock     *ssa.BasicBlock
+	safety       bool
+	safetyTags   []string
+	callCount    map[string]int
+	oblCount     map[string]int
+	lastCall     string
+	letVals      map[string]Val
+	paramVars    map[string]Val
+	readFails    [][2]string // (reader, failure flag) pairs of the reads(...) items of the contract call being applied
+	lastSort     *sortInfo
 	preDeferSite string
-	noClosure  bool
-	lastReads  []string
+	noClosure    bool
+	lastReads    []string
 }
 
 type deferRec struct {
@@ -65,19 +65,19 @@ type exitInfo struct {
 }
 
 type loopInfo struct {
-	head    *ssa.BasicBlock
-	ordinal int
-	blocks  map[*ssa.BasicBlock]bool
-	mods    map[string]bool // statically computed set of heap components the body may write
-	modAll  bool
-	modHeap bool // the body may write any heap component except ghost (GH.*) and channel (CN.*, CL.*) state
-	inState *State
-	inAlloc string
-	con     *LoopCon
-	phiIn   map[*ssa.Phi]Val
-	modRefs map[string][]string // comp -> refs the loop may write below the entry frontier
+	head        *ssa.BasicBlock
+	ordinal     int
+	blocks      map[*ssa.BasicBlock]bool
+	mods        map[string]bool // statically computed set of heap components the body may write
+	modAll      bool
+	modHeap     bool // the body may write any heap component except ghost (GH.*) and channel (CN.*, CL.*) state
+	inState     *State
+	inAlloc     string
+	con         *LoopCon
+	phiIn       map[*ssa.Phi]Val
+	modRefs     map[string][]string // comp -> refs the loop may write below the entry frontier
 	localAllocs []*ssa.Alloc
-	readsAll bool
+	readsAll    bool
 }
 
 type unsupported struct{ msg string }
